@@ -54,5 +54,6 @@ meta.update({'confirmed': {'suite_passes_with_change': suite_ok, 'demo_fails_wit
              'checks_run': results, 'ran': 'tools/seedtest.py %s %s %s' % (wt, name, ' '.join(props))})
 json.dump(meta, open(os.path.join(dst, 'meta.json'), 'w'), indent=1)
 # restore evidence of the unchanged tree for the checks we ran
-for p in props:
-    sh(['./check', p], cwd='/verif')
+if os.environ.get('SEEDTEST_NO_RESTORE') != '1':   # a batch restores the evidence once, at its end
+    for p in props:
+        sh(['./check', p], cwd='/verif')
